@@ -671,6 +671,10 @@ class SymReal:
     def __hash__(s):
         return 0
 
+    def __bool__(s):
+        # truthiness of a float: x != 0 (a solver decision)
+        return bool(s != 0)
+
     def __deepcopy__(s, memo):
         return s          # immutable
 
@@ -1093,10 +1097,17 @@ class SymCtx:
             ex.solver.set("timeout", ex_timeout(ex))
         return "sat", m
 
-    def require(self, cond, label):
-        """Property assertion: search pc & not cond for a counterexample, then assume cond."""
+    def require(self, cond, label, robust=None):
+        """Property assertion: search pc & not cond for a counterexample, then assume cond.
+        `robust`: a weaker condition (cond implies robust); a model violating it violates cond with a margin and is
+        preferred as the counterexample handed to the float replay (over-approximated rounding cannot mask it)."""
         self.checked += 1
         ex = self.ex
+        if robust is not None and not isinstance(robust, (bool, _np.bool_)) and not isinstance(cond, (bool, _np.bool_)):
+            known0 = [t for rid, t in self.regions if rid in self.known_regions]
+            r0, m0 = self._find_model([z3.Not(robust.t)] + [z3.Not(t) for t in known0])
+            if r0 == "sat":
+                self.candidates.append({"label": label, "region": None, "inputs": self.input_model(m0)})
         if isinstance(cond, (bool, _np.bool_)):
             if cond:
                 return
@@ -1189,7 +1200,7 @@ class LiftCtx:
     def ite(self, cond, a, b):
         return a if bool(cond) else b
 
-    def require(self, cond, label):
+    def require(self, cond, label, robust=None):
         if not bool(cond):
             self.failed.append(label)
 
